@@ -178,6 +178,44 @@ func stdPackages() []string {
 	return out
 }
 
+// sweepSnippets: untyped constants whose exact value is long or large - string lengths across every printing
+// threshold (plain, escaped, multi-byte, raw), integers of 1..120 digits of both signs, floats with huge and tiny
+// exponents and long mantissas, runes and complex numbers. Each is extracted alone.
+func sweepSnippets() []snippet {
+	var out []snippet
+	add := func(name, decl string) { out = append(out, snippet{Name: "sweep " + name, Decl: decl}) }
+	for _, n := range []int{0, 1, 15, 16, 17, 31, 32, 33, 63, 64, 65, 69, 70, 71, 72, 73, 80, 100, 127, 128, 129, 255, 256, 257, 1000, 5000} {
+		add(fmt.Sprintf("string len=%d", n), fmt.Sprintf("const SPlain%d = %q", n, strings.Repeat("abcdefghij", n/10+1)[:n]))
+	}
+	for _, n := range []int{10, 30, 35, 36, 40, 70, 80, 200} {
+		add(fmt.Sprintf("string escapes runes=%d", n), fmt.Sprintf("const SEsc%d = %q", n, strings.Repeat("\n\"\\\t", n/4+1)[:n]))
+		add(fmt.Sprintf("string multibyte runes=%d", n), fmt.Sprintf("const SUni%d = %q", n, strings.Repeat("é世", n/2)))
+		add(fmt.Sprintf("string raw runes=%d", n), fmt.Sprintf("const SRaw%d = `%s`", n, strings.Repeat("a\"\\n", n/4+1)))
+	}
+	add("string typed long", fmt.Sprintf("const STyped string = %q", strings.Repeat("x", 300)))
+	add("string concatenation long", fmt.Sprintf("const SCat = %q + %q", strings.Repeat("l", 50), strings.Repeat("r", 50)))
+	for _, n := range []int{1, 9, 10, 18, 19, 20, 21, 38, 39, 40, 77, 78, 100, 120} {
+		d := strings.Repeat("9876543210", n/10+1)[:n]
+		if d[0] == '0' {
+			d = "1" + d[1:]
+		}
+		add(fmt.Sprintf("int digits=%d", n), fmt.Sprintf("const IPos%d = %s", n, d))
+		add(fmt.Sprintf("negative int digits=%d", n), fmt.Sprintf("const INeg%d = -%s", n, d))
+	}
+	for _, e := range []string{"1e19", "1e20", "1e38", "1e39", "1e100", "1e308", "1e309", "1e4000", "1e-5", "1e-45", "1e-324", "1e-400", "0.5e-1000", "123456789.125", "0x1p-1074", "0x1.fffffffffffffp1023", "1.0000000000000000000000000000000000001", "4.940656458412465441765687928682213723651e-324"} {
+		id := strings.NewReplacer(".", "_", "-", "m", "+", "p").Replace(e)
+		add("float "+e, fmt.Sprintf("const F%s = %s", id, e))
+		add("negative float "+e, fmt.Sprintf("const FN%s = -%s", id, e))
+	}
+	for n, r := range []string{"'\\x00'", "'\\n'", "'\\''", "'é'", "'世'", "'\\U0010FFFF'", "'a' + 1", "'a' * 1000"} {
+		add("rune "+r, fmt.Sprintf("const R%d = %s", n, r))
+	}
+	for n, c := range []string{"1i", "0.5 + 0.25i", "1e100 + 1e-100i", "-2.5i", "1 << 70 + 3i"} {
+		add("complex "+c, fmt.Sprintf("const C%d = %s", n, c))
+	}
+	return out
+}
+
 func genCases(thorough bool) []kase {
 	var ks []kase
 	mk := func(desc string, sn ...snippet) {
@@ -201,6 +239,9 @@ func genCases(thorough bool) []kase {
 		ks = append(ks, kase{Kind: "gen", Pkg: pkg, Desc: desc, Src: src})
 	}
 	for _, s := range snippets {
+		mk(s.Name, s)
+	}
+	for _, s := range sweepSnippets() {
 		mk(s.Name, s)
 	}
 	for i, a := range snippets {
@@ -285,7 +326,7 @@ func main() {
 	r.Set("wrapper_methods_checked", res.Counts["wrapper_methods"])
 	r.Set("distinct_nontrivial", res.Counts["nontrivial_packages"])
 	r.Set("exhaustive", len(res.Abnormal) == 0)
-	r.Set("rule", "every non-internal package of `go list std` + generated packages: each of 47 declaration snippets alone and in pairs (quick: pairs of the core snippets); non-trivial = packages for which extract produced at least one binding; each generated file is type-checked and every entry / wrapper / the key set is compared with the go/types package of the input")
+	r.Set("rule", "every non-internal package of `go list std` + generated packages: each of 47 declaration snippets alone and in pairs (quick: pairs of the core snippets) + a sweep of untyped constants extracted alone (string lengths 0..5000 across the printing thresholds in plain / escaped / multi-byte / raw form, integers of 1..120 digits of both signs, floats with extreme exponents and long mantissas, runes, complex); non-trivial = packages for which extract produced at least one binding; each generated file is type-checked and every entry / wrapper / the key set is compared with the go/types package of the input")
 	r.Assumptions = []string{"go/types package of the input (source importer) is the reference", "os and log: the 7 documented restricted replacements are emitted by extract by design and are accepted"}
 	r.Sample(ks[0])
 	r.Sample(ks[nStd])
